@@ -55,6 +55,36 @@ def discharge(decls: smt.Decls, obs: list[Obligation], timeout: float, both: boo
                 ob.result = {"verdict": "error", "backend": None, "time_s": 0.0, "detail": repr(e)}
 
 
+    # a verdict must not flip because the machine is busy: whatever timed out in the parallel pass is tried again,
+    # one query at a time, with four times the budget (a timeout is never reported as a violation either way)
+    slow = [ob for ob in obs if ob.result.get("verdict") == "unknown"
+            and any(a == "timeout" for a in (ob.result.get("answers") or {}).values())]
+    for ob in slow[:24]:
+        first = ob.result
+        try:
+            ob.result = one_retry(decls, ob, timeout * 4, both)
+            ob.result["time_s"] += first.get("time_s", 0.0)
+            ob.result["detail"] = (ob.result.get("detail") or "") + " [decided on the sequential retry]"
+        except Exception:  # noqa: BLE001
+            ob.result = first
+
+
+def one_retry(decls, ob, timeout, both):
+    if ob.kind == "must_be_sat":
+        text = smt.script(decls, ob.pc, axioms=False)
+        v, out, t = smt.run_cvc5(text, timeout)
+        backend = "cvc5"
+        if v not in ("sat", "unsat"):
+            v2, out2, t2 = smt.run_z3(text, timeout)
+            t += t2
+            if v2 in ("sat", "unsat"):
+                v, backend = v2, "z3"
+        return {"verdict": {"sat": "reachable", "unsat": "vacuous"}.get(v, "unknown"), "backend": backend, "time_s": t}
+    r = smt.check_unsat(smt.script(decls, ob.assertions()), timeout, both=both)
+    verdict = {"unsat": "proved", "sat": "refuted", "unknown": "unknown", "error": "error"}[r["verdict"]]
+    return {"verdict": verdict, "backend": r["backend"], "time_s": r["time_s"], "detail": r["detail"][:2000], "answers": r["answers"]}
+
+
 def counter_model(decls: smt.Decls, ob: Obligation, extra: list | None = None, timeout: float = 20):
     names = dict(ob.inputs)
     return smt.get_model(decls, ob.assertions(), names, timeout=timeout, extra_bounds=extra)
